@@ -50,5 +50,6 @@ structure Verdict where
   rejects : List String := []      -- judge clauses violated by the implementation's observation
   nontrivial : Bool := true
   tags : List String := []         -- branch / distribution tags for the evidence
+  implObs : Option String := none  -- the implementation's observation after domain-specific canonicalisation (default: as printed)
 
 end ScpiVerif.Drv
